@@ -141,7 +141,7 @@ def build_race(ctx):
         alt = os.path.join(hdir, "go.%s.mod" % re.sub(r"\W", "_", verif.REPO))
         if os.path.exists(alt):
             cmd += ["-modfile", alt]
-    rc, out = verif.sh(cmd + ["-o", os.path.join(hdir, "bin", "c11race"), "./cmd/c11"], env=verif.GOENV, cwd=hdir, timeout=1800)
+    rc, out = verif.sh(cmd + ["-o", os.path.join(verif.HBIN, "c11race"), "./cmd/c11"], env=verif.GOENV, cwd=hdir, timeout=1800)
     if rc != 0:
         ctx.skipped.append("race-detector build of the driver failed: " + out[-300:])
         return False
@@ -202,7 +202,7 @@ def run(ctx):
                 elif nbad == 9:
                     ctx.broken.append(("correspondence: further cases disagree with the model", ""))
             ctx.cov["traces_validated_against_impl"] += len(part)
-    if ctx.broken and not ctx.findings and os.path.exists(os.path.join(verif.ROOT, "harness", "bin", "c11")):
+    if ctx.broken and not ctx.findings and os.path.exists(os.path.join(verif.HBIN, "c11")):
         more = run_harness(ctx, "c11", "search.jsonl", ["-seed", ctx.seed + 1000, "-n", 20000, "-fill", 20000, "-text", 5000, "-sweep"],
                            timeout=3000)
         for o in more:
